@@ -322,13 +322,27 @@ def _vector(ctx) -> None:
            "no wholesale reversal", f.node, message="Vector.sort_by reverses a sorted list wholesale: ties come out in reversed order")
 
 
-def _cell_problems(flag, second, val, atoms_base, is_none_atom, rev: bool, nl: bool) -> List[str]:
+def _cell_problems(result, val, atoms_base, is_none_atom, rev: bool, nl: bool, sh) -> List[str]:
+    """`result` is the key function's result term for element `val`.  Under each of is-None / not-None it must reduce to a
+    (flag, value) pair with a constant boolean flag; the flags must order None after values iff na_last once the reversal applies."""
+    from ..symx import simplify
     problems = []
-    a = beval(flag, {**atoms_base, is_none_atom: True})
-    b = beval(flag, {**atoms_base, is_none_atom: False})
-    if not isinstance(a, bool) or not isinstance(b, bool):
-        problems.append(f"the None flag is not a constant per (None / not None): {a!r} / {b!r}")
-        return problems
+    flags = {}
+    for is_none in (True, False):
+        atoms = {**atoms_base, is_none_atom: is_none}
+        r = simplify(result, atoms)
+        r = reduce_ifexp(r, atoms)
+        if r[0] != "tuple" or len(r[1]) != 2:
+            return [f"the key function does not return a (flag, value) pair: `{sh(r)}`"]
+        fl = beval(r[1][0], atoms)
+        if not isinstance(fl, bool):
+            return [f"the None flag is not a constant per (None / not None): `{sh(r[1][0])}`"]
+        flags[is_none] = fl
+        if is_none:
+            sec = reduce_ifexp(r[1][1], atoms)
+            if not (sec == val or sec[0] == "const"):
+                problems.append("the tie-break component of a None key is not constant")
+    a, b = flags[True], flags[False]
     if a == b:
         problems.append("None and values get the same flag: None would be compared with a value (TypeError)")
     else:
@@ -337,9 +351,6 @@ def _cell_problems(flag, second, val, atoms_base, is_none_atom, rev: bool, nl: b
             problems.append(f"with reverse={rev}, na_last={nl} the key flags are None->{a!r}, value->{b!r}: after "
                             f"{'reversal' if rev else 'the ascending sort'} None comes "
                             f"{'LAST' if none_after else 'FIRST'}, the contract says {'last' if nl else 'first'}")
-    sec = reduce_ifexp(second, {**atoms_base, is_none_atom: True})
-    if not (sec == val or sec[0] == "const"):
-        problems.append("the tie-break component of a None key is not constant")
     return problems
 
 
@@ -363,12 +374,13 @@ def _none_cells(ctx) -> None:
         for rev, nl in cells:
             problems = []
             if who == "Table.sort_by":
-                if r is None or r[0] != "tuple" or len(r[1]) != 2 or revt is None:
+                if r is None or revt is None:
                     problems.append(f"the key function does not return a (flag, value) tuple: {show(r, it)[:60] if r else r}")
                 else:
-                    flag, val = r[1]
+                    vals = [t for t in subterms(r) if t[0] == "sub" and t[2] == arg]
+                    val = vals[0] if vals else arg
                     atoms = {revt: rev, ("param", "na_last"): nl}
-                    problems += _cell_problems(flag, val, val, atoms, ("cmp", "Is", val, SNONE), rev, nl)
+                    problems += _cell_problems(r, val, atoms, ("cmp", "Is", val, SNONE), rev, nl, lambda t: show(t, it)[:60])
             else:
                 if len(vs) != 1 or kw(vs[0], "key") is None:
                     raise AnalysisError("Vector.sort_by: sorted(..., key=...) not found")
@@ -378,10 +390,10 @@ def _none_cells(ctx) -> None:
                     raise AnalysisError("Vector.sort_by: the sort key is not a lambda / local function")
                 x = ("name", "<element>")
                 rr = itv.call_value(k, (x,))
-                if rr is None or rr[0] != "tuple" or len(rr[1]) != 2:
-                    problems.append(f"the key function does not return a (flag, value) tuple: {show(rr, itv)[:60] if rr else rr}")
+                if rr is None:
+                    problems.append("the key function could not be evaluated")
                 else:
-                    problems += _cell_problems(rr[1][0], rr[1][1], x, atoms, ("cmp", "Is", x, SNONE), rev, nl)
+                    problems += _cell_problems(rr, x, atoms, ("cmp", "Is", x, SNONE), rev, nl, lambda t: show(t, itv)[:60])
             ctx.ob("c.none-placement", owner, f"{who}:reverse={rev},na_last={nl}", not problems,
                    f"{who}: None {'last' if nl else 'first'} under reverse={rev}", owner.node, message=f"{who}: " + "; ".join(problems))
 
